@@ -454,15 +454,22 @@ func observeCache(c *Ctx, cache string, wares []cacheWare, ridNames map[string]s
 			l3, _ := os.ReadDir(filepath.Join(root, a.Name(), b.Name()))
 			for _, h := range l3 {
 				dir := filepath.Join(root, a.Name(), b.Name(), h.Name())
-				nm, ok := ridNames[h.Name()]
-				if !ok {
-					nm = "unknown-" + h.Name()
+				// a shelf keyed "<hash>+<filter>" holds the filtered tree of a ware whose unpack reported the unfiltered id; the
+				// wares of this engine carry nothing such a filter (dev=ignore) drops, so the tree is the ware itself
+				hashPart, keyed := h.Name(), ""
+				if k := strings.IndexByte(hashPart, '+'); k >= 0 {
+					hashPart, keyed = hashPart[:k], "+"
 				}
+				nm, ok := ridNames[hashPart]
+				if !ok {
+					nm = "unknown-" + hashPart
+				}
+				nm += keyed
 				got, err := Snapshot(dir)
 				verdict := "=partial"
 				if err == nil {
 					// independent: reference tree hash of what the shelf holds
-					if b58(RefTreeHash(rootFirst(got), sha384)) == h.Name() {
+					if b58(RefTreeHash(rootFirst(got), sha384)) == hashPart {
 						verdict = "=ok"
 					} else {
 						verdict = "=other"
@@ -554,6 +561,32 @@ func cacheEngine(c *Ctx) {
 		}
 		cacheExec(c, fmt.Sprintf("cache %d %d %s %s %s", c.Rand()%1000000, nw, strings.Join(ps, ";"), strings.Join(sch, ","), pre))
 	}
+	// an altering filter that leaves the id alone (dev=ignore): its tree is shelved under a key of its own, never on the
+	// shelf a lossless request is served from; both orders, a race of two such requests, and a pre-shelved ware
+	devIgn := "uid=follow+gid=follow+mtime=follow+sticky=follow+setid=follow+dev=ignore"
+	ll := strings.ReplaceAll(losslessUnpackStr, ",", "+")
+	seq := func(np int) string {
+		var sch []string
+		for pid := 0; pid < np; pid++ {
+			for r := 0; r < 10; r++ {
+				sch = append(sch, fmt.Sprint(pid))
+			}
+		}
+		return strings.Join(sch, ",")
+	}
+	rr := func(np int) string {
+		var sch []string
+		for r := 0; r < 10; r++ {
+			for pid := 0; pid < np; pid++ {
+				sch = append(sch, fmt.Sprint(pid))
+			}
+		}
+		return strings.Join(sch, ",")
+	}
+	cacheExec(c, fmt.Sprintf("cache 901 1 0,%s,copy;0,%s,copy %s -", devIgn, ll, seq(2)))
+	cacheExec(c, fmt.Sprintf("cache 902 1 0,%s,copy;0,%s,none %s -", ll, devIgn, seq(2)))
+	cacheExec(c, fmt.Sprintf("cache 903 1 0,%s,none;0,%s,copy;0,%s,copy %s -", devIgn, devIgn, ll, rr(3)))
+	cacheExec(c, fmt.Sprintf("cache 904 2 0,%s,copy;1,%s,mount;0,%s,copy %s 0", devIgn, devIgn, devIgn, rr(3)))
 }
 
 // cacheForeignOrder: wares written by somebody else — entries in any order (children before their directory's own entry),
